@@ -6,11 +6,12 @@ META = {
                     "block mapping, block read/write and checksum computation are stubs (always succeed); checksum content is C14",
                     "little-endian host (the WORDS_BIGENDIAN swab paths of dirblock.c are not compiled)"],
     "outside": ["histories of operations: one operation from an arbitrary well-formed block (induction over WF), not sequences",
-                "dx_lookup as a whole (multi-level walk, root info validation), dx_split_leaf, dx_move_dirents, dx_link's retry loop; "
+                "dx_lookup as a whole (multi-level walk, root info validation), dx_link's retry loop; dx_split_leaf only on full leaves of 3..5 "
+                "records with the rec_len chain and name lengths fixed per query (leaves with free records: see report); "
                 "dx_grow_tree only for the interior split below a non-full parent and the 1 -> 2 level depth increase",
                 "ext2fs_expand_dir over the real block iterator/allocator (iterator, allocator, zeroing are stubs; allocation failure, bigalloc, "
-                "huge_file, extent-mapped and inline directories outside), ext2fs_mkdir (inode/block allocation, parent link count), "
-                "ext2fs_symlink, namei path walk",
+                "huge_file, extent-mapped and inline directories outside), ext2fs_mkdir / ext2fs_symlink only as protocols over stubbed callees (fault schedules, "
+                "accounting ledger, arguments), not composed with the real allocator / link / inode writer; namei path walk",
                 "link counts, dir_nlink overflow rule, release of inode and blocks by debugfs rm/rmdir/kill_file",
                 "inline-data directories, casefolded/encrypted directories (SipHash, hash-in-dirent), blocksize >= 65536 rec_len encoding",
                 "interleaving with e2fsck -D (rehash.c: see C05), e2fsck -fn verdict on the result, duplicate-name prevention (ext2fs_link does not check)",
@@ -209,6 +210,58 @@ HARNESSES.append(
          backends=["default", "kissat"],
          bound="interior-node split: node limit 3,4,5 (odd and even; 3,4 with metadata_csum), parent with 1..limit-1 pairs, all hashes and "
                "blocks symbolic (strictly ascending), lookup target all 2^32 values; depth increase: root limit 2,3"))
+
+HARNESSES.append(
+    dict(name="mkdir_p", src="mkdir_p.c",
+         funcs=["ext2fs_mkdir", "ext2fs_iblk_set"],
+         extra_src=["lib/ext2fs/i_block.c"],
+         configs=[{"FEAT": 0}, {"FEAT": 1}, {"FEAT": 2}], unwind=4,
+         unwindset=["main.%d:130" % i for i in range(4)] + ["memset.0:130", "strlen.0:5"],
+         backends=["default", "kissat"],
+         bound="all fault schedules of the 12 fallible steps (return values symbolic); inum (0 = allocate), parent, name/NULL, umask, "
+               "both copies of the parent inode symbolic; features none / extents / inline_data per query"))
+
+def split_cfgs():
+    c = []
+    for lay, nls, cs, tier in (((12, 12, 12), (4, 1, 3), 0, "quick"), ((12, 12, 12, 12), (4, 1, 3, 2), 0, "thorough"), ((16, 12, 20), (5, 4, 9), 0, "quick"),
+                               ((24, 12, 12), (12, 2, 4), 0, "thorough"), ((12, 12, 12), (2, 4, 3), 1, "quick"), ((16, 16, 16), (8, 3, 6), 1, "thorough"),
+                               ((12, 16, 12, 24), (3, 7, 4, 10), 0, "thorough"), ((12, 12, 12, 12, 12), (1, 2, 3, 4, 4), 0, "thorough")):
+        bs = sum(lay) + 12 * cs
+        d = {"BS": bs, "LAYOUT": ",".join(str(x) for x in lay), "NAMELENS": ",".join(str(x) for x in nls)}
+        if cs:
+            d["WITH_CSUM"] = None
+        ne = bs // 12 + 2
+        ns = bs // 4 + 1
+        d["_unwindset"] = ["main.%d:%d" % (i, 3 * bs + 2) for i in range(26)] + \
+            ["vf_scan.0:%d" % ns, "vf_scan.1:%d" % ns, "vf_ident.0:20", "vf_samename.0:20", "vf_hash_of.0:%d" % ns, "vf_holds.0:%d" % ns,
+             "vf_match.0:%d" % ns, "vf_match.1:%d" % ns,
+             "stub_dirhash2.0:%d" % ns, "stub_qsort.0:%d" % ne, "stub_qsort.1:%d" % ne,
+             "dx_split_leaf.0:%d" % ne, "dx_split_leaf.1:%d" % ne, "dx_move_dirents.0:%d" % ne,
+             "memcpy.0:%d" % (bs + 1), "memmove.0:%d" % (bs + 1), "memset.0:%d" % (bs + 1),
+             "stub_write_blk64.0:%d" % (bs + 1), "stub_write_blk64.1:4"]
+        d["_tier"] = tier
+        c.append(d)
+    return c
+
+HARNESSES.append(
+    dict(name="dxsplit", src="dxsplit.c",
+         funcs=["dx_split_leaf", "dx_move_dirents", "dx_insert_entry", "dx_hash_map_cmp", "ext2fs_write_dir_block4", "ext2fs_set_rec_len"],
+         extra_harness_src=["C10/iter_unit.c"], extra_src=["lib/ext2fs/csum.c"],
+         configs=split_cfgs(), unwind=4,
+         backends=["default", "kissat"], cap_quick=200,
+         bound="one full leaf of 48/60/64 bytes (2..5 entries of 12..24 bytes, every byte symbolic), one symbolic even hash per entry "
+               "(collisions allowed), parent node with 1..limit-1 pairs symbolic, tie order of the sort symbolic"))
+
+HARNESSES.append(
+    dict(name="symlink_p", src="symlink_p.c",
+         funcs=["ext2fs_symlink", "ext2fs_inode_size_set", "ext2fs_iblk_set"],
+         extra_src=["lib/ext2fs/i_block.c", "lib/ext2fs/blknum.c"],
+         configs=[{"TLEN": 5}, {"TLEN": 70}, {"TLEN": 70, "WITH_EXTENTS": None}, {"TLEN": 64, "WITH_INLINE": None}], unwind=4,
+         unwindset=["main.%d:130" % i for i in range(6)] + ["memset.0:130", "strlen.0:80", "strnlen.0:131", "stub_strnlen.0:131",
+                    "strncpy.0:130", "strcpy.0:80", "stub_write_blk64.0:130"],
+         backends=["default", "kissat"],
+         bound="all fault schedules of the 10 fallible steps; target of 5 (fast) / 64, 70 (slow or inline) symbolic bytes, block size 128; "
+               "inum, parent, name/NULL symbolic; features none / extents / inline_data per query"))
 
 def hash_unwind(maxlen):
     return ["dx_hack_hash.0:%d" % (maxlen + 2), "str2hashbuf.0:%d" % (maxlen + 2), "str2hashbuf.1:10",
